@@ -285,10 +285,11 @@ func genC07(w *bufio.Writer, tier string, rng *rand.Rand) {
 		if rng.Intn(6) == 0 { // the distribution object changes after the function was taken
 			var ys2 []float64
 			for _, y := range ys {
-				if y > 0 && y < 1 {
+				if y >= 0 && y <= 1 {
 					ys2 = append(ys2, y)
 				}
 			}
+			ys2 = append(ys2, 0, 1) // the end points are taken from Bounds at the time of the call
 			if len(ys2) > 0 {
 				fmt.Fprintf(w, "inv pwmut %s %s %s\n", randPW(rng), pw, fmtFs(ys2))
 			}
